@@ -17,8 +17,8 @@
 import Driver.OpsC04
 import FcModel.Junit
 import FcModel.Spec.C20
-namespace Fc.Drv
-open Fc Fc.Cli
+namespace Fc.Drv.C20
+open Fc Fc.C04 Fc.Drv Fc.Drv.C04
 
 def showCase (c : TestCase) : String := s!"{escStr c.name}:{c.kind.name}"
 
@@ -93,4 +93,6 @@ def handleC20 (op : String) : Option (P String) :=
   | "jchildren" => some opJChildren
   | _ => none
 
-end Fc.Drv
+end Fc.Drv.C20
+
+def Fc.Drv.handleC20 := Fc.Drv.C20.handleC20
